@@ -324,7 +324,7 @@ func c17Section(out string, st c17Stmt) string {
 
 // c17CtxFont is the font file of the context compilations: one font without a "default" width, so that glyphs
 // missing from the table are 0 wide, and a short line.
-var c17CtxFont string
+var c17CtxFont, c17ScratchDir string
 
 // c17DictStmts: two formatted texts. The first holds every word-like literal of the compiler's own source (the
 // sentinels it compares against: "default", "TEST", keywords, ...); the second consists of glyphs the font table
@@ -340,12 +340,9 @@ func c17DictStmts() []c17Stmt {
 }
 
 func c17Context(r *harness.Run, tier string) {
-	if f, err := os.CreateTemp("", "pmc-c17-font-*.json"); err == nil {
-		f.WriteString(`{"defaultFontId": "f", "fonts": {"f": {"widths": {" ": 1, "a": 1, "e": 2}, "maxLineLength": 12, "numLines": 2, "cursorOverlapWidth": 0}}}`)
-		f.Close()
-		c17CtxFont = f.Name()
-		defer os.Remove(f.Name())
-	}
+	// (the file lives in the run's scratch directory, which is removed after Finish has re-checked every report)
+	c17CtxFont = filepath.Join(c17ScratchDir, "ctxfont.json")
+	os.WriteFile(c17CtxFont, []byte(`{"defaultFontId": "f", "fonts": {"f": {"widths": {" ": 1, "a": 1, "e": 2}, "maxLineLength": 12, "numLines": 2, "cursorOverlapWidth": 0}}}`), 0o644)
 	if len(c17Stmts) > 0 && c17Stmts[len(c17Stmts)-1].name != "FE" {
 		c17Stmts = append(c17Stmts, c17DictStmts()...)
 	}
@@ -562,6 +559,7 @@ func runC17(tier string) int {
 		return 2
 	}
 	defer os.RemoveAll(dir)
+	c17ScratchDir = dir
 	exe, _ := os.Executable()
 
 	// (1) schedules: instrument, build with the overlay, run the explorer.
